@@ -98,6 +98,18 @@ pub(crate) fn verify_nonmembership<TC: Configuration>(
         ));
     }
 
+    // Verify that neither child is a prefix of the proof's label: otherwise the label could
+    // still be present further down that child's subtree, and the claimed longest prefix is
+    // not the deepest node on the path to the label. The empty label is the placeholder for
+    // a missing child of the root and is exempt (it has length 0).
+    for child in proof.longest_prefix_children.iter() {
+        if child.label != TC::empty_label() && child.label.is_prefix_of(&proof.label) {
+            return Err(VerificationError::NonMembershipProof(
+                "One of the children's labels is a prefix of the proof's label".to_string(),
+            ));
+        }
+    }
+
     // Verify that proof.longest_prefix is a prefix of the proof's label
     if !proof.longest_prefix.is_prefix_of(&proof.label) {
         return Err(VerificationError::NonMembershipProof(
